@@ -1201,9 +1201,13 @@ func (bc *BlockChain) insertChain2(chain types.Blocks, try int) (int, []interfac
 			var winner []*types.Block
 
 			parent := bc.GetBlock(block.ParentHash(), block.NumberU64()-1)
-			for !bc.HasState(parent.Root()) {
+			for parent != nil && !bc.HasState(parent.Root()) {
 				winner = append(winner, parent)
 				parent = bc.GetBlock(parent.ParentHash(), parent.NumberU64()-1)
+			}
+			if parent == nil {
+				// the branch hangs on blocks a rewind (SetHead) has deleted
+				return i, events, coalescedLogs, consensus.ErrUnknownAncestor
 			}
 			for j := 0; j < len(winner)/2; j++ {
 				winner[j], winner[len(winner)-1-j] = winner[len(winner)-1-j], winner[j]
